@@ -359,8 +359,10 @@ class Subprocess(object):
             # the finally clause will exit the child process.
 
         finally:
-            options.write(2, "supervisor: child process was not spawned\n")
-            options._exit(127) # exit process with code for spawn failure
+            try:
+                options.write(2, "supervisor: child process was not spawned\n")
+            finally:
+                options._exit(127) # exit process with code for spawn failure
 
     def _check_and_adjust_for_system_clock_rollback(self, test_time):
         """
